@@ -148,10 +148,52 @@ def enum_refuses_duplicates():
     return 'bool', cbool(ok)
 
 
+def containers_validate_no_shortcut():
+    """StructOf/ArrayOf/TupleOf.validate and __call__: the first statement is self.check_type(value[, True]), no return
+    stands before the conversion loop (every return is the freshly built tuple / ImmutableDict(result)), and nothing
+    inspects the class or identity of the candidate (no isinstance/type/is on `value`, no `return value`): a frozen
+    mapping, a tuple or an already validated value takes the same path as any other candidate"""
+    ok = True
+    for cname, first, rets_ok in (
+            ('StructOf', {'validate': 'self.check_type(value,True)', '__call__': 'self.check_type(value)'},
+             ('ImmutableDict(result)',)),
+            ('ArrayOf', {'validate': 'self.check_type(value)', '__call__': 'self.check_type(value)'}, None),
+            ('TupleOf', {'validate': 'self.check_type(value)', '__call__': 'self.check_type(value)'}, None)):
+        for fn in ('validate', '__call__'):
+            f = find_func(_cls(cname), fn)
+            body = [b for b in f.body if not (isinstance(b, ast.Expr) and isinstance(getattr(b, 'value', None), ast.Constant))]
+            ok = ok and bool(body) and src(body[0]).replace(' ', '') == first[fn]
+            rets = walk_type(f, ast.Return)
+            ok = ok and bool(rets)
+            for r in rets:
+                rs = src(r.value).replace(' ', '') if r.value is not None else ''
+                if rets_ok is not None:
+                    ok = ok and rs in rets_ok
+                else:
+                    ok = ok and rs.startswith('tuple(') and (fn == '__call__' or '.validate(' in rs)
+            # every return lies inside or after the try block that converts the members, none before it
+            tries = [i for i, b in enumerate(body) if isinstance(b, ast.Try)]
+            ok = ok and len(tries) == 1
+            if tries:
+                for b in body[:tries[0]]:
+                    ok = ok and not walk_type(b, ast.Return)
+            for n in ast.walk(f):
+                if isinstance(n, ast.Call) and isinstance(n.func, ast.Name) and n.func.id in ('isinstance', 'type', 'id', 'issubclass'):
+                    a0 = n.args[0] if n.args else None
+                    if not (n.func.id == 'isinstance' and isinstance(a0, ast.Name) and a0.id == 'e'):
+                        ok = False
+                if isinstance(n, ast.Compare) and any(isinstance(o, (ast.Is, ast.IsNot)) for o in n.ops):
+                    names = [x.id for x in [n.left] + n.comparators if isinstance(x, ast.Name)]
+                    if 'value' in names:
+                        ok = False
+    return 'bool', cbool(ok)
+
+
 FACTS = [default_min_int, default_max_int, unlimited_is_2_64, clamp_is_median_of_sorted, float_validate_shape,
          int_validate_shape, scaled_validate_shape, generic_import_is_call, containers_wrap_element_errors,
          sequences_check_before_import, sequences_reject_str_bytes_dict, struct_requires_dict, blob_import_strict,
-         struct_checks_missing_after_merge, float_properties_pass_through_float_call, enum_refuses_duplicates]
+         struct_checks_missing_after_merge, float_properties_pass_through_float_call, enum_refuses_duplicates,
+         containers_validate_no_shortcut]
 
 _FP = ['FloatRange', 'IntRange', 'ScaledInteger', 'EnumType', 'BLOBType', 'StringType', 'BoolType', 'ArrayOf', 'TupleOf',
        'StructOf']
